@@ -23,8 +23,11 @@ RULE = ("(a) attribute texts over all 2^10 subsets of the recognised keys (schem
         "line breaks, surrounding #[derive] / #[allow] / #[doc] attributes, values that spell other key names or flags, four struct "
         "visibilities; each extracted value is compared with the value the text was built from, absent keys with `not found`. "
         "(b) real derives compiled in consumer crates with the hook log on: options == written options (defaults: deprecated warn, "
-        "normalization none, other-variant off, skip-none off), paths == CARGO_MANIFEST_DIR/<rel>, tokens == library tokens for the "
-        "same options (whitespace-insensitive). Non-trivial = text with >= 3 keys or a non-plain literal; distinct by text")
+        "normalization none, other-variant off, skip-none off), paths == CARGO_MANIFEST_DIR/<rel> (rustc's working directory is "
+        "elsewhere and holds decoy files under the same relative paths), the token stream the macro RETURNS to rustc (hook) == "
+        "library tokens for the same options (whitespace-insensitive); eight struct visibilities incl. pub(in path); every fourth "
+        "derive has a twin - the same struct name over the same files in a sibling module with other options - whose returned "
+        "tokens must follow its own attribute. Non-trivial = text with >= 3 keys or a non-plain literal; distinct by text")
 
 KEYS = ["schema_path", "query_path", "response_derives", "variables_derives", "custom_scalars_module", "deprecated", "normalization",
         "fragments_other_variant", "skip_serializing_none", "extern_enums"]
@@ -39,7 +42,8 @@ VALUES = {
     "fragments_other_variant": ["true", "false", "True", "yes", "", "1"],
 }
 ENUM_LISTS = [["Color"], ["Color", "Kind"], [], ["color_kind", "É"], ["normalization", "skip_serializing_none"]]
-FLOOR = {"attribute-texts": 1024, "extractions-compared": 10000, "style:raw": 100, "style:escaped": 100, "style:hash-raw": 100, "real-derives": 12, "real-derive-options-compared": 12, "real-derive-token-comparisons": 12}
+# (twin derives: the same struct name over the same files in a sibling module with other options)
+FLOOR = {"attribute-texts": 1024, "extractions-compared": 10000, "style:raw": 100, "style:escaped": 100, "style:hash-raw": 100, "real-derives": 12, "real-derive-options-compared": 12, "real-derive-token-comparisons": 12, "twin-derives-compared": 3}
 
 
 def lit(v, style):
@@ -223,10 +227,7 @@ def part_b(run):
     for c in cases:
         gendrv_request(c, fac.work)
     ind = os.path.join(fac.work, "in")
-    for c in cases:
-        cid = c["id"]
-        o = c["options"]
-        sp = [f for f in os.listdir(ind) if f.startswith(cid + ".schema.")][0]
+    def attribute_for(c, o, sp, cid):
         keys = []
         st = lambda v: lit(v, rng.choice(["plain", "plain", "raw", "hash-raw", "escaped"]))[0]
         keys.append("schema_path = %s" % st("../in/" + sp))
@@ -248,12 +249,38 @@ def part_b(run):
         from .. import names as _names
         sname = _names.camel(opname) if (o.get("normalization") or "").lower().strip() == "rust" else opname
         attr = "#[derive(graphql_client::GraphQLQuery)]\n#[graphql(%s%s)]\n#[allow(dead_code)]\n%sstruct %s;\n" % (rng.choice([", ", ",\n  "]).join(keys), rng.choice(["", ","]), vis, sname)
+        return attr, sname
+
+    twins = {}
+    for ci, c in enumerate(cases):
+        cid = c["id"]
+        o = c["options"]
+        sp = [f for f in os.listdir(ind) if f.startswith(cid + ".schema.")][0]
+        attr, sname = attribute_for(c, o, sp, cid)
         # the consumer's extern enum / scalar support follows the normalisation actually in force
         eff_norm = "rust" if (o.get("normalization") or "").lower().strip() == "rust" else "none"
         sup_opts = dict(o, normalization=eff_norm)
         c["support"] = C.support_for(Schema(c["schema_model"]), sup_opts)
-        srcs[cid] = support_code(c) + attr
-        written[cid] = {"attr": attr, "schema_rel": "../in/" + sp, "query_rel": "../in/" + cid + ".query.graphql", "struct": sname}
+        if ci % 4 == 1:
+            # twins: the same struct name over the same query and schema files once more in a sibling module, with other
+            # options - each derive must follow its own attribute (what one derive produced must not leak into the next)
+            o2 = dict(o)
+            o2["skip_none"] = not o.get("skip_none")
+            o2["other_variant"] = not o.get("other_variant")
+            o2["response_derives"] = "Debug,Clone,PartialEq" if o.get("response_derives") != "Debug,Clone,PartialEq" else "Debug"
+            o2["visibility"] = "pub" if o["visibility"] != "pub" else "pub(crate)"
+            if o["visibility"] == "pub(super)":
+                pass
+            if eff_norm == "none":
+                o2.pop("normalization", None)       # same struct name needs the same effective normalization
+            attr2, sname2 = attribute_for(c, o2, sp, cid)
+            twins[cid] = o2
+            srcs[cid] = support_code(c) + "pub mod twin_a {\n#[allow(unused_imports)] use super::*;\n%s}\npub mod twin_b {\n#[allow(unused_imports)] use super::*;\n%s}\n" % (attr, attr2)
+            run.count("twin-derives")
+            written[cid] = {"attr": attr + "// twin:\n" + attr2, "schema_rel": "../in/" + sp, "query_rel": "../in/" + cid + ".query.graphql", "struct": sname}
+        else:
+            srcs[cid] = support_code(c) + attr
+            written[cid] = {"attr": attr, "schema_rel": "../in/" + sp, "query_rel": "../in/" + cid + ".query.graphql", "struct": sname}
     # rustc runs somewhere else than in the manifest directory (as under cargo in a workspace), and from there the same
     # relative paths lead to other files: whoever resolves a path against the working directory reads these
     elsewhere = os.path.join(fac.work, "elsewhere", "cwd")
@@ -265,7 +292,7 @@ def part_b(run):
     fac.rustc_cwd = elsewhere
     fake_gen = {c["id"]: {"outcome": "ok"} for c in cases}
     verdict = fac.compile(cases, fake_gen, check_only=True, files=srcs)
-    entries = {}
+    entries, all_entries, returned = {}, {}, {}
     if os.path.exists(log):
         for line in open(log):
             try:
@@ -274,8 +301,11 @@ def part_b(run):
                 continue
             qp = e.get("query_path") or ""
             m = re.search(r"/(c\d+)\.query\.graphql$", qp)
-            if m:
-                entries[m.group(1)] = e
+            if m and e.get("stage") == "returned":
+                returned.setdefault(m.group(1), []).append(e)       # what the macro really handed back to rustc
+            elif m:
+                all_entries.setdefault(m.group(1), []).append(e)
+                entries.setdefault(m.group(1), e)
     lib_reqs = []
     for c in cases:
         cid = c["id"]
@@ -297,6 +327,10 @@ def part_b(run):
         eff["other_variant"] = bool(o.get("other_variant"))
         eff["skip_none"] = bool(o.get("skip_none"))
         lib_reqs.append({"id": cid, "schema_path": e["schema_path"], "query_path": e["query_path"], "options": eff, "want": ["tokens"]})
+        if cid in twins:
+            o2 = twins[cid]
+            eff2 = dict(eff, visibility=o2["visibility"], other_variant=bool(o2.get("other_variant")), skip_none=bool(o2.get("skip_none")), response_derives=o2["response_derives"])
+            lib_reqs.append({"id": cid + ".twin", "schema_path": e["schema_path"], "query_path": e["query_path"], "options": eff2, "want": ["tokens"]})
     lib = {r["id"]: r for r in run_gendrv(lib_reqs)} if lib_reqs else {}
     for c in cases:
         cid = c["id"]
@@ -348,12 +382,31 @@ def part_b(run):
             run.count("real-derive-token-comparisons")
             if not l or l["outcome"] != "ok":
                 problems.append("library route failed where the derive succeeded: %s" % ((l or {}).get("message") or "")[:150])
+            elif returned.get(cid) and squash(l["tokens"]) != squash(returned[cid][0]["text"]):
+                a, b = squash(l["tokens"]), squash(returned[cid][0]["text"])
+                i = next((i for i, (x, y) in enumerate(zip(a, b)) if x != y), min(len(a), len(b)))
+                problems.append("the token stream the derive RETURNED differs from the library's for the same options near ...%s | %s" % (a[max(0, i - 50):i + 50], b[max(0, i - 50):i + 50]))
             elif squash(l["tokens"]) != squash(e["text"]):
                 a, b = squash(l["tokens"]), squash(e["text"])
                 i = next((i for i, (x, y) in enumerate(zip(a, b)) if x != y), min(len(a), len(b)))
                 problems.append("derive tokens differ from the library's for the same options near ...%s | %s" % (a[max(0, i - 50):i + 50], b[max(0, i - 50):i + 50]))
             if v != "accepted":
                 problems.append("derive output rejected by rustc: %s %s" % (v.get("code"), v.get("message")))
+            if v == "accepted" and not returned.get(cid):
+                problems.append("no returned-tokens event logged for an accepted derive")
+            if cid in twins and v == "accepted":
+                run.count("twin-derives-compared")
+                l2 = lib.get(cid + ".twin")
+                rets = returned.get(cid) or []
+                if len(rets) != 2 or len(all_entries.get(cid, [])) != 2:
+                    problems.append("twin derives: %d invocation and %d returned events logged, expected 2 and 2" % (len(all_entries.get(cid, [])), len(rets)))
+                elif not l2 or l2["outcome"] != "ok":
+                    problems.append("library route failed for the twin's options: %s" % ((l2 or {}).get("message") or "")[:150])
+                elif squash(l2["tokens"]) != squash(rets[1]["text"]):
+                    a, b = squash(l2["tokens"]), squash(rets[1]["text"])
+                    i = next((i for i, (x, y) in enumerate(zip(a, b)) if x != y), min(len(a), len(b)))
+                    problems.append("second derive of the same struct name over the same files: returned tokens differ from the library's for ITS options near ...%s | %s"
+                                    % (a[max(0, i - 50):i + 50], b[max(0, i - 50):i + 50]))
         else:
             problems.append("derive failed: %s" % (e.get("text") or e.get("error") or "")[:200])
         if problems:
